@@ -45,3 +45,45 @@ package bgzf
 //@   ensures[C08] @fits c.err == nil ==> (len(gb) >= 18 && len(gb) - 1 < 65536)
 //@   ensures[C08] @lo c.err == nil ==> int(gb[16]) == mod(len(gb) - 1, 256)
 //@   ensures[C08] @hi c.err == nil ==> int(gb[17]) == div(len(gb) - 1, 256)
+
+// decompressor.readMember (C10): once the header of a gzip member has been
+// read, the member is either buffered completely or an error other than
+// io.EOF is returned: a clean end of data is reported only when there is no
+// further member header.
+//@ trusted func ext:compress/gzip.Reader.Reset
+//@   modifies all(z), object(r), objects(bgzf.countReader)
+//@ func countReader.offset
+//@   inline
+//@ func buffer.reset
+//@   inline
+//@ func buffer.hasData
+//@   inline
+//@ func expectedMemberSize
+//@   mode int
+//@   props C10, C11
+//@   decoder
+//@   ensures[C10] @range result == 0 - 1 || (1 <= result && result <= 65536)
+//@ trusted func ext:io.ReadFull
+//@   modifies buf[:], object(r).err
+//@   ensures 0 <= n && n <= len(buf)
+//@   ensures err == nil <==> n == len(buf)
+//@   ensures (n == 0 && len(buf) > 0) <==> err == io.EOF
+
+//@ func buffer.readLimited
+//@   mode int
+//@   props C10
+//@   panics when r.size != 0
+//@   requires r != nil && src != nil && 0 <= n && n <= 65536
+//@   modifies r.off, r.size, r.data, all(src)
+//@   ensures[C10] @eof (result == io.EOF) ==> n > 0 && r.size == 0
+//@   ensures[C10] @full result == nil ==> r.size == n
+
+//@ func decompressor.readMember
+//@   mode int
+//@   props C10
+//@   requires d != nil && d.cr != nil && 0 <= d.cr.off && d.cr.off <= 4611686018427387904
+//@   modifies all(d), objects(countReader)
+//@   ghost hdrok bool
+//@   at stmt "err := d.gz.Reset(d)" assume d.cr == old(d.cr) && d.cr.off >= old(d.cr.off) && d.cr.off <= old(d.cr.off) + 1048576 && d.buf.size == 0
+//@   at stmt "d.blockSize = expectedMemberSize(d.gz.Header)" ghost hdrok = true
+//@   ensures[C10] @noearlyeof hdrok ==> result != io.EOF
